@@ -342,7 +342,7 @@ func reachableAfter(start, target *ssa.BasicBlock, removed []Edge) bool {
 	}
 	for i, s := range start.Succs {
 		if !rm[Edge{start, i, nil}] {
-			starts = append(starts, rstate{s, start})
+			starts = append(starts, rstate{b: s, from: start})
 		}
 	}
 	if len(starts) == 0 {
